@@ -23,6 +23,7 @@ import (
 	sdk "github.com/conduitio/conduit-processor-sdk"
 	"github.com/conduitio/conduit-processor-sdk/pprocutils"
 	processorv1 "github.com/conduitio/conduit-processor-sdk/proto/processor/v1"
+	"github.com/conduitio/conduit/pkg/foundation/cerrors"
 )
 
 // protoConverter converts between the SDK and protobuf types.
@@ -145,7 +146,9 @@ func (c protoConverter) filterRecord(_ *processorv1.Process_ProcessedRecord_Filt
 
 func (c protoConverter) errorRecord(in *processorv1.Process_ProcessedRecord_ErrorRecord) (sdk.ErrorRecord, error) {
 	if in == nil || in.ErrorRecord == nil || in.ErrorRecord.Error == nil {
-		return sdk.ErrorRecord{}, nil
+		// An error record must always carry an error: the engines use it as
+		// the nack reason and treat a nil reason as "no failure".
+		return sdk.ErrorRecord{Error: cerrors.New("processor returned an error record without an error")}, nil
 	}
 	return sdk.ErrorRecord{Error: c.error(in.ErrorRecord.Error)}, nil
 }
